@@ -8,3 +8,8 @@ package common
 
 // key of the tendermint-family trust root (epoch switch info) of chain id
 //@ spec epochKey(id uint64) KeyT = K2(utils.HeaderSyncContractAddress, "epochSwitch", u64le(id))
+
+// key of the validator trust root kept per chain by the quorum and NEO-family routers, and of the
+// current-header-height record every header-storing router writes with its first header
+//@ spec peerKey(id uint64) KeyT = K2(utils.HeaderSyncContractAddress, "consensusPeer", u64le(id))
+//@ spec curHeightKey(id uint64) KeyT = K2(utils.HeaderSyncContractAddress, "currentHeaderHeight", u64le(id))
